@@ -79,7 +79,7 @@ def install_demo(sid, tree):
     gm = os.path.join(work, "go.mod")
     if os.path.exists(gm):
         s = open(gm).read()
-        s = re.sub(r"=> */tmp/seed-[a-z0-9]+", "=> " + tree, s)
+        s = re.sub(r"=> */tmp/seed3?-[a-z0-9]+", "=> " + tree, s)
         open(gm, "w").write(s)
         for sumsrc in ("util/resolve/go.sum",):
             if not os.path.exists(os.path.join(work, "go.sum")):
